@@ -153,10 +153,17 @@ func (g *valueGen) value(depth int) genValue {
 		if inner.goVal == nil || r.Intn(5) == 0 {
 			var p *c12Point
 			var pp **c12Point
-			if r.Intn(2) == 0 {
+			switch r.Intn(4) {
+			case 0:
 				return genValue{goVal: p, view: model.Nil}
+			case 1:
+				return genValue{goVal: pp, view: model.Nil}
+			case 2:
+				// a non-nil pointer to a nil pointer
+				return genValue{goVal: &p, view: model.Nil}
 			}
-			return genValue{goVal: pp, view: model.Nil}
+			inner := &p
+			return genValue{goVal: &inner, view: model.Nil}
 		}
 		v := inner.goVal
 		for l := 0; l <= r.Intn(3); l++ {
